@@ -640,13 +640,32 @@ pub fn generic_zoo(rng: &mut Rng) -> String {
     "    let viaFn2 = Main.convBack(Feet.init(0), Meters.init(8));\n    Process.println(\"fn2=\" :: Str.fromInt(viaFn2.v));\n",
     "    let boxed = Box.init(Fwd.init(Meters.init(4), Feet.init(0)));\n    Process.println(\"boxed=\" :: Str.fromInt(boxed.item.run().v));\n",
     "    let lam = (m: Meters) -> Fwd.init(m, Feet.init(0)).run();\n    Process.println(\"lam=\" :: Str.fromInt(lam(Meters.init(5)).v));\n",
+    // branches that can only be typed from an earlier branch (no type from outside)
+    "    let elseIfOpt = if Feet.init(1).v > 5 { Option.Some(3) } else if Feet.init(2).v > 5 { Option.None() } else { Option.None() };\n    Process.println(\"elseIfOpt=\" :: Str.fromInt(elseIfOpt.valueMap(7, (v) -> v)));\n",
+    "    let elseIfLam = if Feet.init(1).v > 5 { (x: int) -> x + 1 } else if Feet.init(2).v > 5 { (x) -> x } else { (x) -> 0 - x };\n    Process.println(\"elseIfLam=\" :: Str.fromInt(elseIfLam(4)));\n",
+    "    let elseIfGeneric = if Feet.init(1).v > 5 { Option.Some(Fwd.init(Meters.init(1), Feet.init(0))) } else if Feet.init(9).v > 5 { Option.Some(Fwd.init(Meters.init(2), Feet.init(0))) } else { Option.None() };\n    Process.println(\"elseIfGeneric=\" :: Str.fromInt(elseIfGeneric.valueMap(0, (f) -> f.run().v)));\n",
   ];
   rng.shuffle(&mut uses);
   let keep = 4 + rng.below(uses.len() - 3);
   uses.truncate(keep);
   format!(
-    "interface Into<T> {{\n  method into(): T\n}}\ninterface Cmp<T> {{\n  method cmp(other: T): int\n}}\nclass Box<T>(val item: T) {{}}\nclass Feet(val v: int) : Cmp<Feet>, Into<Inches> {{\n  method cmp(other: Feet): int = this.v - other.v\n  method into(): Inches = Inches.init(this.v * 12)\n}}\nclass Inches(val v: int) {{}}\nclass Meters(val v: int) : Into<Feet> {{\n  method into(): Feet = Feet.init(this.v * 3)\n}}\nclass Crate(val f: Feet) : Into<Box<Feet>> {{\n  method into(): Box<Feet> = Box.init(this.f)\n}}\n{}class Main {{\n  function <A: Into<B>, B> conv(a: A, unused: B): B = a.into()\n  function <A, B: Into<A>> convBack(unused: A, b: B): A = b.into()\n  function main(): unit = {{\n{}  }}\n}}\n",
+    "import {{ Option }} from std.option\ninterface Into<T> {{\n  method into(): T\n}}\ninterface Cmp<T> {{\n  method cmp(other: T): int\n}}\nclass Box<T>(val item: T) {{}}\nclass Feet(val v: int) : Cmp<Feet>, Into<Inches> {{\n  method cmp(other: Feet): int = this.v - other.v\n  method into(): Inches = Inches.init(this.v * 12)\n}}\nclass Inches(val v: int) {{}}\nclass Meters(val v: int) : Into<Feet> {{\n  method into(): Feet = Feet.init(this.v * 3)\n}}\nclass Crate(val f: Feet) : Into<Box<Feet>> {{\n  method into(): Box<Feet> = Box.init(this.f)\n}}\n{}class Main {{\n  function <A: Into<B>, B> conv(a: A, unused: B): B = a.into()\n  function <A, B: Into<A>> convBack(unused: A, b: B): A = b.into()\n  function main(): unit = {{\n{}  }}\n}}\n",
     classes.concat(),
     uses.concat()
   )
+}
+
+/// type arguments that violate a bound, one per result, in a generic zoo module (operator, text)
+pub fn generic_faults(text: &str) -> Vec<(&'static str, String)> {
+  let edits: &[(&'static str, &str, &str)] = &[
+    ("bound-violated:later-type-parameter-of-function", "Main.convBack(Feet.init(0), Meters.init(8))", "Main.convBack(Feet.init(0), Inches.init(8))"),
+    ("bound-violated:later-type-parameter-of-class", "Bwd.init(Feet.init(1), Meters.init(3))", "Bwd.init(Feet.init(1), Inches.init(3))"),
+    ("bound-violated:first-type-parameter-of-class", "Fwd.init(Meters.init(2), Feet.init(0))", "Fwd.init(Inches.init(2), Feet.init(0))"),
+    ("bound-violated:self-referential-bound", "Best.init(Feet.init(4), Feet.init(9))", "Best.init(Inches.init(4), Inches.init(9))"),
+    ("bound-violated:first-type-parameter-of-function", "Main.conv(Meters.init(7), Feet.init(0))", "Main.conv(Inches.init(7), Feet.init(0))"),
+    ("bound-violated:middle-type-parameter-of-chain", "Chain.init(Meters.init(1), Feet.init(0), Inches.init(0))", "Chain.init(Meters.init(1), Feet.init(0), Feet.init(0))"),
+    ("bound-violated:nested-in-type-argument", "Box.init(Fwd.init(Meters.init(4), Feet.init(0)))", "Box.init(Fwd.init(Inches.init(4), Feet.init(0)))"),
+    ("bound-violated:inside-lambda", "(m: Meters) -> Fwd.init(m, Feet.init(0)).run()", "(m: Inches) -> Fwd.init(m, Feet.init(0)).run()"),
+  ];
+  edits.iter().filter(|(_, from, _)| text.contains(from)).map(|(op, from, to)| (*op, text.replacen(from, to, 1))).collect()
 }
